@@ -155,6 +155,11 @@ func TestPropGrafanaNet(t *testing.T) {
 	rec := ev.Get("grafananet")
 	rapid.Check(t, func(t *rapid.T) {
 		caseSeq++
+		// rapid reports a failure that does not repeat on re-execution as "flaky" and drops its message: keep it on stderr
+		failf := func(format string, args ...interface{}) {
+			fmt.Fprintf(os.Stderr, "C17-FIRST-FAILURE: "+format+"\n", args...)
+			t.Fatalf(format, args...)
+		}
 		timeout := time.Duration(rapid.SampledFrom([]int{50, 100, 200}).Draw(t, "timeoutMs")) * time.Millisecond
 		st := &stub{hang: timeout + 60*time.Millisecond}
 		nfail := rapid.IntRange(0, 8).Draw(t, "nscript")
@@ -176,7 +181,7 @@ func TestPropGrafanaNet(t *testing.T) {
 		defer st.srv.Close()
 		cfg, err := route.NewGrafanaNetConfig(st.srv.URL+"/metrics", "apikey", schemasFile, aggFile)
 		if err != nil {
-			t.Fatalf("HARNESS-ERROR: %v", err)
+			failf("HARNESS-ERROR: %v", err)
 		}
 		cfg.Concurrency = rapid.IntRange(1, 4).Draw(t, "concurrency")
 		cfg.BufSize = cfg.Concurrency * rapid.SampledFrom([]int{2, 10, 100, 1000}).Draw(t, "bufPerWorker")
@@ -187,15 +192,30 @@ func TestPropGrafanaNet(t *testing.T) {
 		cfg.ErrBackoffFactor = 1.5
 		cfg.Blocking = rapid.Bool().Draw(t, "blocking")
 		cfg.OrgID = rapid.SampledFrom([]int{1, 7}).Draw(t, "orgId")
+		// 1 case in 20: bulk -- batches of more than ten thousand points (what a relay in front of a big installation
+		// sends), cut by count, by the timer or by Shutdown
+		bulk := rapid.IntRange(0, 19).Draw(t, "bulk") == 0
+		if bulk {
+			cfg.FlushMaxNum = rapid.SampledFrom([]int{10000, 10001, 15001, 50000}).Draw(t, "bigFlushMaxNum")
+			cfg.Concurrency = rapid.SampledFrom([]int{1, 1, 2}).Draw(t, "bulkConcurrency")
+			cfg.BufSize = cfg.Concurrency * 40000
+			cfg.FlushMaxWait = time.Duration(rapid.SampledFrom([]int{1000, 2000}).Draw(t, "bulkWaitMs")) * time.Millisecond
+			// a request of 10 000+ points takes its time on a loaded machine: the client timeout must not be what fails it
+			// (the scripted 'silence' outcome keeps its short duration and then ends in a closed connection)
+			cfg.Timeout = 5 * time.Second
+		}
 		rkey := fmt.Sprintf("c17gn%d", caseSeq)
 		rt, err := route.NewGrafanaNet(rkey, matcher.Matcher{}, cfg)
 		if err != nil {
-			t.Fatalf("HARNESS-ERROR: %v", err)
+			failf("HARNESS-ERROR: %v", err)
 		}
 		dropName := "dest=" + strings.NewReplacer(".", "_", ":", "_", "/", "").Replace(cfg.Addr) + ".unit=Metric.action=drop.reason=queue_full"
 		drop0 := h.Count(dropName)
 		nseries := rapid.IntRange(1, 12).Draw(t, "nseries")
 		npoints := rapid.IntRange(1, 120).Draw(t, "npoints")
+		if bulk {
+			npoints = rapid.SampledFrom([]int{10001, 12345, 20001}).Draw(t, "bulkpoints")
+		}
 		type sent struct {
 			name string
 			ts   int64
@@ -204,8 +224,14 @@ func TestPropGrafanaNet(t *testing.T) {
 		tsOf := map[string]int64{}
 		slowDispatch := time.Duration(0)
 		for i := 0; i < npoints; i++ {
-			sname := fmt.Sprintf("s%d.c%d.metric", rapid.IntRange(0, nseries-1).Draw(t, "series"), caseSeq)
-			tsOf[sname] += int64(rapid.IntRange(1, 3).Draw(t, "dts"))
+			var sname string
+			if bulk {
+				sname = fmt.Sprintf("s%d.c%d.metric", i%nseries, caseSeq)
+				tsOf[sname]++
+			} else {
+				sname = fmt.Sprintf("s%d.c%d.metric", rapid.IntRange(0, nseries-1).Draw(t, "series"), caseSeq)
+				tsOf[sname] += int64(rapid.IntRange(1, 3).Draw(t, "dts"))
+			}
 			ts := 1500000000 + tsOf[sname]
 			line := fmt.Sprintf("%s %d %d", sname, i, ts)
 			all = append(all, sent{sname, ts})
@@ -216,19 +242,19 @@ func TestPropGrafanaNet(t *testing.T) {
 				select {
 				case <-done:
 				case <-time.After(30 * time.Second):
-					t.Fatalf("blocking mode: Dispatch did not return within 30s although the endpoint recovers (script %v)", st.script)
+					failf("blocking mode: Dispatch did not return within 30s although the endpoint recovers (script %v)", st.script)
 				}
 			} else {
 				select {
 				case <-done:
 				case <-time.After(2 * time.Second):
-					t.Fatalf("non-blocking mode: Dispatch did not return within 2s (script %v, cfg %+v)", st.script, cfg)
+					failf("non-blocking mode: Dispatch did not return within 2s (script %v, cfg %+v)", st.script, cfg)
 				}
 			}
 			if d := time.Since(t0); d > slowDispatch {
 				slowDispatch = d
 			}
-			if rapid.IntRange(0, 9).Draw(t, "pause") == 0 {
+			if !bulk && rapid.IntRange(0, 9).Draw(t, "pause") == 0 {
 				time.Sleep(time.Duration(rapid.IntRange(1, 10).Draw(t, "pauseMs")) * time.Millisecond)
 			}
 		}
@@ -239,7 +265,7 @@ func TestPropGrafanaNet(t *testing.T) {
 			select {
 			case <-sd:
 			case <-time.After(20 * time.Second):
-				t.Fatalf("Shutdown() did not return within 20s with an endpoint that acknowledges everything after %d scripted failures (script %v, concurrency %d)", len(st.script), st.script, cfg.Concurrency)
+				failf("Shutdown() did not return within 20s with an endpoint that acknowledges everything after %d scripted failures (script %v, concurrency %d)", len(st.script), st.script, cfg.Concurrency)
 			}
 		}
 		// completion: everything accepted is acknowledged
@@ -276,19 +302,19 @@ func TestPropGrafanaNet(t *testing.T) {
 				if doShutdown {
 					when = "after Shutdown() returned"
 				}
-				t.Fatalf("%d metrics dispatched, %d counted as dropped (queue full), only %d acknowledged by a 2xx answer %s: e.g. %v (script %v, cfg concurrency=%d bufSize=%d flushMaxNum=%d flushMaxWait=%s blocking=%v)", len(all), dropped, len(ack), when, missing, st.script, cfg.Concurrency, cfg.BufSize, cfg.FlushMaxNum, cfg.FlushMaxWait, cfg.Blocking)
+				failf("%d metrics dispatched, %d counted as dropped (queue full), only %d acknowledged by a 2xx answer %s: e.g. %v (script %v, cfg concurrency=%d bufSize=%d flushMaxNum=%d flushMaxWait=%s blocking=%v)", len(all), dropped, len(ack), when, missing, st.script, cfg.Concurrency, cfg.BufSize, cfg.FlushMaxNum, cfg.FlushMaxWait, cfg.Blocking)
 			}
 			time.Sleep(2 * time.Millisecond)
 		}
 		dropped := h.Count(dropName) - drop0
 		if st.decErr != "" {
-			t.Fatalf("a POST body could not be decoded as snappy + msgp MetricDataArray: %s", st.decErr)
+			failf("a POST body could not be decoded as snappy + msgp MetricDataArray: %s", st.decErr)
 		}
 		if cfg.Blocking && dropped != 0 {
-			t.Fatalf("blocking mode dropped %d metrics", dropped)
+			failf("blocking mode dropped %d metrics", dropped)
 		}
 		if int64(len(ack))+dropped != int64(len(all)) {
-			t.Fatalf("%d dispatched != %d acknowledged + %d counted as dropped", len(all), len(ack), dropped)
+			failf("%d dispatched != %d acknowledged + %d counted as dropped", len(all), len(ack), dropped)
 		}
 		dispatched := map[sent]bool{}
 		for _, s := range all {
@@ -296,7 +322,7 @@ func TestPropGrafanaNet(t *testing.T) {
 		}
 		for s := range ack {
 			if !dispatched[s] {
-				t.Fatalf("acknowledged a point that was never dispatched: %+v", s)
+				failf("acknowledged a point that was never dispatched: %+v", s)
 			}
 		}
 		// record fields
@@ -307,7 +333,7 @@ func TestPropGrafanaNet(t *testing.T) {
 					wantInt = 5
 				}
 				if p.orgID != cfg.OrgID || p.interval != wantInt {
-					t.Fatalf("POSTed record %+v: want org id %d and interval %d", p, cfg.OrgID, wantInt)
+					failf("POSTed record %+v: want org id %d and interval %d", p, cfg.OrgID, wantInt)
 				}
 			}
 		}
@@ -322,7 +348,7 @@ func TestPropGrafanaNet(t *testing.T) {
 		for _, r := range reqs {
 			if r.outcome != "200" && len(r.points) > 0 {
 				if !ackedBodies[r.raw] {
-					t.Fatalf("request #%d was answered %s and its body was never acknowledged unchanged afterwards (skipped or re-cut batch); script %v", r.seq, r.outcome, st.script)
+					failf("request #%d was answered %s and its body was never acknowledged unchanged afterwards (skipped or re-cut batch); script %v", r.seq, r.outcome, st.script)
 				}
 				retried = true
 			}
@@ -346,7 +372,7 @@ func TestPropGrafanaNet(t *testing.T) {
 				}
 				first[k] = true
 				if p.ts < lastTs[p.name] {
-					t.Fatalf("series %s: the point with timestamp %d was first acknowledged after the point with timestamp %d (script %v)", p.name, p.ts, lastTs[p.name], st.script)
+					failf("series %s: the point with timestamp %d was first acknowledged after the point with timestamp %d (script %v)", p.name, p.ts, lastTs[p.name], st.script)
 				}
 				lastTs[p.name] = p.ts
 			}
@@ -360,7 +386,7 @@ func TestPropGrafanaNet(t *testing.T) {
 			select {
 			case <-sd:
 			case <-time.After(20 * time.Second):
-				t.Fatalf("Shutdown() did not return within 20s after everything had been acknowledged (concurrency %d)", cfg.Concurrency)
+				failf("Shutdown() did not return within 20s after everything had been acknowledged (concurrency %d)", cfg.Concurrency)
 			}
 		}
 		rec.Case(fmt.Sprintf("script=%v conc=%d buf=%d flushMaxNum=%d wait=%s timeout=%s blocking=%v series=%d points=%d shutdownFirst=%v", st.script, cfg.Concurrency, cfg.BufSize, cfg.FlushMaxNum, cfg.FlushMaxWait, timeout, cfg.Blocking, nseries, npoints, doShutdown),
